@@ -275,6 +275,7 @@ pub struct Fail {
     /// name of the declaration the failing node textually belongs to (None = the queried type)
     pub in_decl: Option<String>,
     /// declarations owning the failing nodes of the *other* union arms that were tried on the way
+    /// (the empty string stands for the queried type itself)
     pub also: Vec<String>,
 }
 
@@ -459,7 +460,7 @@ impl Env {
                     match self.member_in(v, t, path, decl, refs) {
                         Ok(()) => return Ok(()),
                         Err(MemberErr::Fail(f)) => {
-                            others.extend(f.in_decl.iter().cloned());
+                            others.push(f.in_decl.clone().unwrap_or_default());
                             others.extend(f.also.iter().cloned());
                             if best.as_ref().map_or(true, |b| f.path.len() > b.path.len()) {
                                 best = Some(f);
@@ -498,7 +499,7 @@ impl Env {
             match self.member_shape(v, s, path, decl) {
                 Ok(()) => return Ok(()),
                 Err(MemberErr::Fail(f)) => {
-                    others.extend(f.in_decl.iter().cloned());
+                    others.push(f.in_decl.clone().unwrap_or_default());
                     others.extend(f.also.iter().cloned());
                     let better = match &best {
                         None => true,
